@@ -299,7 +299,9 @@ CHECKS["C07"] = dict(
          "classification_tight - each excluded class has a diverging witness. Apply.apply_exactly_once / publish_spec - whatever the overlap of the Ready batches, each committed entry reaches the state "
          "machine exactly once, in index order; RS.commit_order_respects_real_time - a proposal made after an index was committed is committed strictly behind it, "
          "for every cluster size and schedule of the abstract protocol. TIED to the code by running random overlapping batches (incl. gaps, which must be refused) "
-         "through the real entriesToApply/publishEntries against Apply.publish, and by extracting the order of the Ready arm (fact F4). "
+         "through the real entriesToApply/publishEntries against Apply.publish, and by extracting the order of the Ready arm (fact F4, incl. F4d: the persist step is "
+         "unconditional); the BEHAVIOURAL form of F4 - votes answered / appends acknowledged / entries applied only when a restart would find them on disk, no double vote in a "
+         "term across restarts, on the real Ready loop of one node - is C08's suite readyloop (harness/readyloop.go, vlib/readygen.py), run by `check C08`. "
          "NOT PROVED - EXPLORATION: the end-to-end statement (linearizable histories, each client its own reply, identical keyspaces on all nodes, no node death) is "
          "checked only on the runs explored: 3 and 5 real node processes on loopback, 4-16 concurrent RESP clients against random nodes, SIGKILL of followers / the "
          "leader / a minority / all nodes at random instants and restart from disk, snapshot-threshold crossings, a follower caught up by MsgSnap, rconf add/delete; "
@@ -312,13 +314,23 @@ CHECKS["C07"] = dict(
 )
 
 CHECKS["C08"] = dict(
-    category="proof", design_ref="DESIGN.md §6 C08", engine="cluster",
+    category="proof", design_ref="DESIGN.md §6 C08", engine="cluster + readyloop",
     technique="Lean 4 theorems on the recovery function (snapshot + entries up to the persisted commit index = the committed prefix, preserved by append / commit / "
-              "snapshot / compaction) + source fact F4 (persist before send/apply/acknowledge) + FAULT ENUMERATION on real node processes crossing the snapshot threshold",
+              "snapshot / compaction) + source fact F4 (persist before send/apply/acknowledge, persist step unconditional) + BEHAVIOURAL ORACLE on the real Ready loop of one "
+              "node (engine readyloop: every externalisation judged against what a restart would read from disk) + FAULT ENUMERATION on real node processes crossing the snapshot threshold",
     text="PROVED (kernel-checked, abstract in the state machine): Recover.recover_replays_all, rep_save, rep_snapshot, applied_is_image, acked_survives - what a node "
          "rebuilds from its newest snapshot and the WAL entries after it is the state after its committed prefix, under every storage operation of the Ready loop, so an "
          "entry at or below the persisted commit index contributes to the recovered state exactly as when it was applied. HYPOTHESES checked on every run: F4 (order of "
-         "the Ready arm extracted from raftexample/raft.go: saveSnap -> wal.Save -> ... -> transport.Send -> publishEntries -> Advance, write errors fatal); "
+         "the Ready arm extracted from raftexample/raft.go: saveSnap -> wal.Save -> ... -> transport.Send -> publishEntries -> Advance, write errors fatal, F4d: the "
+         "wal.Save(rd.HardState, rd.Entries) step is not nested in any conditional) and its BEHAVIOURAL TIE, suite readyloop: one REAL raftexample.RaftNode (id 2 of {1,2,3}: "
+         "real WAL + snapshot directory, real rafthttp transport, real serveChannels goroutine), the harness plays peers 1 and 3 through RaftNode.Process (elections, rival "
+         "candidates in one term, appends / conflicts / stale appends, heartbeats, leader snapshots, node 2 leading with proposals and acknowledgements; 1200 seeded scenarios "
+         "quick, 20000 thorough, + fixed regressions); hook H4 observes every message synchronously INSIDE rc.transport.Send, the consumer every delivery on the commit "
+         "channel, and at that moment the node's directories are read from disk with a separate read-only open exactly as replayWAL would: E1 on-disk term >= message term; "
+         "E2 a granted vote / own candidacy has (term, votedFor) on disk; E3 an accepted append or snapshot is on disk with the leader's terms; E4 every applied proposal is in "
+         "the on-disk log; E6 a commit index announced as leader that needs the node's own copy is on disk; E5 clean restarts and crash images (restart from a copy of the "
+         "files taken before the stop = what kill -9 leaves) keep everything externalised, the restarted node equals what the oracle read, no two grants of one term go to "
+         "different candidates across lives (a double vote = C15 election safety broken by the loop around raft); "
          "restore . serialize = id for the keyspace snapshot is PROVED on the model of memdb/snapshot.go (Snap.decode_encode, snapshot_roundtrip_observable, "
          "encode_deterministic, encode_injective under Exec.Global.Inv and the Go value ranges) and that model is compared byte for byte with GetSnapshot / state for "
          "state with LoadSnapshot on every run (exec lines G/L/LB, mutated snapshots). "
@@ -326,7 +338,8 @@ CHECKS["C08"] = dict(
          "explored: workloads of several hundred writes with VERIF_SNAPCOUNT=5/20/50, SIGKILL of any subset including all nodes at random instants, restart in random order, "
          "then every key read through every node (linearizability incl. those reads, per-node agreement, ledger of acknowledged INCR/SADD), process liveness at snapshot points.",
     note="Level: proof for the recovery function conditional on F4, C16 (WAL read-back) and snapshot serialisation; fault enumeration on real processes for the end-to-end "
-         "statement. SIGKILL does not drop the page cache: fsync placement / power loss are not exercised. Known finding C08: an added member's URL is lost after compaction "
+         "statement; readyloop is an oracle on the real loop over generated schedules, not a proof about the loop. SIGKILL does not drop the page cache: fsync placement / power "
+         "loss are not exercised (readyloop's crash image = the files as a reader sees them, i.e. without what the WAL encoder still buffers; written-but-unsynced pages are visible to it). Known finding C08: an added member's URL is lost after compaction "
          "+ restart (that member never serves again). Trusted: Lean kernel, harness (process control by PID, RESP client), porcupine.",
 )
 
